@@ -287,6 +287,18 @@ theorem AllBuiltFor.get {t : Target} {params : Params} {ir : Module} :
   | [], _ :: _, h, _, _, _, _, _ => by simp [AllBuiltFor] at h
   | _ :: _, [], h, _, _, _, _, _ => by simp [AllBuiltFor] at h
 
+theorem AllBuiltFor.mem {t : Target} {params : Params} {ir : Module} :
+    ∀ {ds : List Nat} {bs : List Built}, AllBuiltFor t params ir ds bs →
+      ∀ b ∈ bs, ∃ d ∈ ds, IsBuiltFor t params ir d b
+  | [], [], _, b, hb => by simp at hb
+  | d0 :: ds, b0 :: bs, h, b, hb => by
+    rcases List.mem_cons.1 hb with rfl | hb
+    · exact ⟨d0, by simp, h.1⟩
+    · obtain ⟨d, hd, hbd⟩ := AllBuiltFor.mem h.2 b hb
+      exact ⟨d, by simp [hd], hbd⟩
+  | [], _ :: _, h, _, _ => by simp [AllBuiltFor] at h
+  | _ :: _, [], h, _, _ => by simp [AllBuiltFor] at h
+
 /-- `compile()` on the module the type checker returns: one allocator run per requested pipeline, each with the
     parameter set of the target and that pipeline's own default group. -/
 theorem compile_spec {a : Args} {ir : Module} {outs : List Built}
